@@ -95,6 +95,10 @@ structure DRec where
   isAdmin : Bool
   /-- after this dispatch the connection's controller id is set and no longer paired -/
   selfGone : Bool
+  /-- the `body` / `request.target` the real `dispatch` was called with (if recorded): the model's
+      own connection object must have assembled exactly these from ITS h11 events -/
+  body : Option Bytes := none
+  target : Option Bytes := none
 
 structure DQ where
   recs : List DRec
@@ -128,7 +132,16 @@ def tdisp : Disp DQ := fun w req body =>
     let want := dispatchCalls Gen.routes P req
     let got := (if rec.urlparse.isSome then ["urlparse"] else []) ++
       (match rec.handler with | some h => [h.name] | none => [])
-    let bad := if want == got then none else some s!"dispatch makes calls {want}, transcript has {got}"
+    let badCalls := if want == got then none else some s!"dispatch makes calls {want}, transcript has {got}"
+    let badBody := match rec.body with
+      | some b => if b == body then none
+                  else some s!"dispatch is called with a {body.length}-byte body assembled from this connection's Data events, the implementation passed {b.length} bytes"
+      | none => none
+    let badTarget := match rec.target, req with
+      | some t, some rq => if t == rq.target then none else some "dispatch is called with another request object than this connection's last Request event"
+      | some _, none => some "dispatch is called without a request, the implementation passed one"
+      | none, _ => none
+    let bad := orElse badCalls (orElse badBody badTarget)
     let w1 : World DQ := { w with st := { recs := rest, desync := orElse w.st.desync bad, selfGone := rec.selfGone } }
     .ok (dispatch Gen.routes P w1 req body)
 
@@ -194,6 +207,11 @@ def callOf (j : Json) : R Call := do
     | _ => throw "bad call"
   | _ => throw "call must be an array"
 
+def optHex (j : Json) (k : String) : R (Option Bytes) := do
+  match j.getObjVal? k with
+  | .ok (.str s) => pure (some (← hexOf s))
+  | _ => pure none
+
 def drecOf (j : Json) : R DRec := do
   let up ← match j.getObjVal? "urlparse" with
     | .ok .null => pure none
@@ -207,7 +225,8 @@ def drecOf (j : Json) : R DRec := do
                    exn := (optStr v "exn").map exnOf,
                    verifiedAfter := ← getBool v "verified_after", uuidAfter := ← getBool v "uuid_after" : HRec })
   pure { urlparse := up, handler := h, isAdmin := ← getBool j "is_admin",
-         selfGone := (j.getObjValAs? Bool "self_gone").toOption.getD false }
+         selfGone := (j.getObjValAs? Bool "self_gone").toOption.getD false,
+         body := ← optHex j "body", target := ← optHex j "target" }
 
 def exnName : Exn → String
   | .unprivileged => "UnprivilegedRequestException"
